@@ -422,3 +422,7 @@ V("c16-benign-closing-suffix-temp", "C16", "rich/pretty.py", [("        child_wh
 V("c14-pretty-measure-empty-repr", "C14", "rich/pretty.py", "        text_width = (\n            max(cell_len(line) for line in pretty_str.splitlines()) if pretty_str else 0\n        )\n", "        text_width = max(cell_len(line) for line in pretty_str.splitlines())\n", "R14.11")
 V("c14-text-measure-guard-dropped", "C14", TX, "        if not text.strip():\n            return Measurement(cell_len(text), cell_len(text))\n        max_text_width", "        max_text_width", "R14.11")
 V("c14-benign-pretty-measure-default", "C14", "rich/pretty.py", "        text_width = (\n            max(cell_len(line) for line in pretty_str.splitlines()) if pretty_str else 0\n        )\n", "        text_width = max((cell_len(line) for line in pretty_str.splitlines()), default=0)\n", None)
+V("c07-leading-rows-on-one-line", "C07", "rich/table.py", "                        for _ in range(leading):\n                            yield _Segment(\n                                _box.get_row(widths, \"mid\", edge=show_edge),\n                                border_style,\n                            )\n                            yield new_line\n", "                        yield _Segment(\n                            _box.get_row(widths, \"mid\", edge=show_edge) * leading,\n                            border_style,\n                        )\n                        yield new_line\n", "R7.7")
+V("c07-stale-table-width", "C07", "rich/table.py", "            widths = [_range.maximum or 1 for _range in width_ranges]\n            table_width = sum(widths)\n", "            widths = [_range.maximum or 1 for _range in width_ranges]\n", "R7.9")
+V("c07-expand-min-width-target", "C07", "rich/table.py", "                if (self.expand or self.min_width is None)\n", "                if self.min_width is None\n", "R7.8")
+V("c07-benign-expand-target-if", "C07", "rich/table.py", "            _max_width = (\n                max_width\n                if (self.expand or self.min_width is None)\n                else min(self.min_width - extra_width, max_width)\n            )\n", "            if self.expand or self.min_width is None:\n                _max_width = max_width\n            else:\n                _max_width = min(self.min_width - extra_width, max_width)\n", None)
